@@ -173,6 +173,22 @@ var specs = map[string]*CheckSpec{
 		Stub:   append([]string{"atp server -> scripted server (reactive transcript, canonical CBOR)"}, commonStub...),
 		Assume: []string{"premise: the server stream ends, errors or garbles; runs in which only the client's writes failed while the server stream stayed intact are excluded and counted", "a success result is legitimate iff a well-formed work-done for that run ID is present in the bytes actually delivered, as decided by the reference decoder"},
 	},
+	"C11": {
+		ID: "C11", Flavour: "atp", Level: "exploration",
+		Quick: []Batch{
+			{Name: "c11.random", Count: 30000},
+			{Name: "c11.sweep", Sweep: &SweepSpec{Files: []string{"schema/step.go", "schema/schema.go", "schema/signal.go"}, Occ: []int{1, 2, 3}, History: 12}},
+		},
+		Thorough: []Batch{
+			{Name: "c11.random", Count: 1500000},
+			{Name: "c11.sweep", Sweep: &SweepSpec{Files: []string{"schema/step.go", "schema/schema.go", "schema/signal.go"}, Occ: []int{1, 2, 3, 4, 5, 6, 7, 8}, History: 200}},
+			{Name: "c11.sweep", Count: 300000, Sweep: &SweepSpec{Files: []string{"schema/step.go", "schema/schema.go", "schema/signal.go"}, Occ: []int{1, 2, 3, 4}, History: 64, Pairs: true}},
+		},
+		Rule:   "each run = 2-6 goroutines issuing CallStep / CallSignal on one generated CallableSchema for 1-3 run IDs (valid and invalid inputs, unknown step and signal IDs, handlers returning declared/undeclared output IDs and conforming/non-conforming data, steps with and without initializer) under one seeded schedule with a yield before every statement of schema/step.go, schema.go and signal.go; sweep batches hold every one of those statements singly (and sampled pairs) on canonical workloads; every call is compared with the same call made alone on a fresh copy; distinct = distinct schedule signature; non-trivial = at least one preemption",
+		Real:   []string{"schema.CallableSchema, CallableStepSchema, CallableSignalSchema (schema/schema.go, step.go, signal.go) and the schema package underneath"},
+		Stub:   []string{"sync.Mutex -> scheduler-visible shim", "step/signal handlers and initializers -> recording harness code"},
+		Assume: []string{"the input/typed-error clauses are evaluated as the sequential-reference oracle of the same runs; the schedule clause is what the simulation decides"},
+	},
 	"C09": {
 		ID: "C09", Flavour: "atp", Level: "exploration",
 		Quick:    []Batch{{Name: "c09.session", Count: 9000}},
